@@ -174,6 +174,22 @@ def exprNoncontig (st : St Float) (e : Expr) : Bool :=
     | none => false
   | none => false
 
+/-- index() results whose SHAPE the pinned C++ gets wrong (orientation finding): further view steps on them
+could be illegal for the real object, so such an index step must be the last step of the expression -/
+def orientRiskBad (st : St Float) (e : Expr) : Bool :=
+  match resolveExpr st e with
+  | some r => match st[r.owner]? with
+    | some ob =>
+      let risk := hasEmptyIndex r.ops || (ob.born1 && hasIndex r.ops)
+      let rec idxOnlyLast : List VOp → Bool
+        | [] => true
+        | [_] => true
+        | .index _ _ :: _ => false
+        | _ :: rest => idxOnlyLast rest
+      risk && !idxOnlyLast r.ops
+    | none => false
+  | none => false
+
 /-- a random expression with a prescribed shape, not addressing owner `avoid` -/
 def rndExprShaped (st : St Float) (m n : Nat) (avoid : Nat) (wantVec : Bool) : Gen (Option Expr) := do
   let mut found : Option Expr := none
@@ -329,6 +345,7 @@ def propose (st : St Float) : Gen (Option (Op Float)) := do
     -- readers; a few of them use index() on arbitrary (possibly non-contiguous) sources
     let idxAny ← rnd 4
     let e ← rndExpr st true
+    if orientRiskBad st e then return none
     if exprNoncontig st e && idxAny != 0 then return none
     let r ← rnd 4
     if r == 0 || exprNoncontig st e then return some (.read e)
